@@ -1,6 +1,7 @@
 import AgModel.Props.C01
 import AgModel.Props.C01Cluster
 import AgModel.Props.C02
+import AgModel.Props.C02Cluster
 import AgModel.Props.C03
 import AgModel.Props.C03Pool
 import AgModel.Props.C04
